@@ -3,6 +3,7 @@ package sizes
 import (
 	"encoding/json"
 	"fmt"
+	"strings"
 	"sync"
 
 	"github.com/github/git-sizer/git"
@@ -133,14 +134,28 @@ func rootTreePrefix(name string) string {
 		case depth > 0 && name[i] == '}':
 			depth--
 		case depth == 0 && name[i] == ':':
-			if i == len(name)-1 {
-				// The path part is still empty (like 'main:').
+			if i == len(name)-1 || name[len(name)-1] == '/' {
+				// The path part is still empty (like 'main:') or
+				// already ends with a separator (like 'main:src/').
 				return name
 			}
 			return name + "/"
 		}
 	}
 	return name + ":"
+}
+
+// extensibleName returns an expression for this object to which a
+// suffix like ':path' or '^{tree}' can be appended. A name of the form
+// ':/text' cannot be extended, because `git rev-parse` takes
+// everything after ':/' as part of the regular expression; in that
+// case the object ID is used.
+func (p *Path) extensibleName() string {
+	name := p.BestPath()
+	if strings.HasPrefix(name, ":/") {
+		return p.OID.String()
+	}
+	return name
 }
 
 // Return the path of this object under the assumption that another
@@ -168,11 +183,9 @@ func (p *Path) TreePrefix() string {
 		switch {
 		case p.parent != nil:
 			// The parent is a tag.
-			return fmt.Sprintf("%s^{%s}", p.parent.BestPath(), p.objectType)
-		case p.relativePath != "":
-			return p.relativePath + ":"
+			return fmt.Sprintf("%s^{%s}", p.parent.extensibleName(), p.objectType)
 		default:
-			return p.OID.String() + ":"
+			return p.extensibleName() + ":"
 		}
 	default:
 		return "???"
@@ -188,7 +201,7 @@ func (p *Path) Path() string {
 		case p.parent != nil:
 			if p.relativePath == "" {
 				// This is a top-level tree or blob.
-				return fmt.Sprintf("%s^{%s}", p.parent.BestPath(), p.objectType)
+				return fmt.Sprintf("%s^{%s}", p.parent.extensibleName(), p.objectType)
 			} else {
 				// The parent is also a tree.
 				return p.parent.TreePrefix() + p.relativePath
@@ -202,7 +215,7 @@ func (p *Path) Path() string {
 		switch {
 		case p.parent != nil:
 			// The parent is a tag.
-			return fmt.Sprintf("%s^{%s}", p.parent.BestPath(), p.objectType)
+			return fmt.Sprintf("%s^{%s}", p.parent.extensibleName(), p.objectType)
 		case p.relativePath != "":
 			return p.relativePath
 		default:
